@@ -33,7 +33,7 @@ BOUNDS = {'quick': 'layer 2: chains of length 2-3 over 42 codes (28 kinds + scal
 STUBS = ['rules.HomothetyOperator / IdentityOperator / jnp / BINARY_RULE_REGISTRY bound to table-driven stubs inside the CrossHair run (the driver code itself is the real one)']
 ASSUMPTIONS = ['chains longer than the bound are outside the claim', 'identities produced by a rule mid-scan are not required to be removed (the property does not demand it)']
 RULE = 'case = CrossHair run for one first code (all chains with that head), or one batch of real chains; non-trivial = the batch contains reducible chains; distinct keys'
-BUDGET = {'quick': 900, 'thorough': 7200}
+BUDGET = {'quick': 900, 'thorough': 3600}
 CASE_TIMEOUT = {'quick': 600, 'thorough': 2400}
 
 
@@ -46,7 +46,7 @@ def cases(tier, seed):
     out += [('ch', first, maxlen) for first in range(n)]
     if tier == 'thorough':
         # all chains of length 4 over the 13-code alphabet (plain symbolic chains, no structure imposed)
-        out += [('ch-small4', first, 4, second) for first in _alpha8(M) for second in _alpha8(M)]
+        out += [('ch-small4', first, 4, second) for first in _alpha8(M) for second in _alpha8(M) if M.compatible([first, second])]   # incompatible heads admit no chain
     # one step deeper over the small alphabet of kinds that take part in annihilating / regenerating patterns
     small = _small_alphabet(M)
     out += [('ch-small', first, maxlen + 1) for first in small]
